@@ -475,7 +475,10 @@ def world_stage(run, name, driver, spec, cfg, extra=None, slim=("id", "policy", 
         batch = os.path.join(wd, "tlc-batch-%d.ndjson" % rnd)
         with open(batch, "w") as f:
             for r in remaining:
-                f.write(json.dumps({k: r[k] for k in slim if k in r}) + "\n")
+                sl = {k: r[k] for k in slim if k in r}
+                if isinstance(sl.get("supply"), dict) and sl["supply"].get("k") == "periodic":
+                    sl["supply"] = dict(sl["supply"], D=sl["supply"]["P"])     # periodic = deadline equal to the period
+                f.write(json.dumps(sl) + "\n")
         e = {"BATCH": batch, "TRACKFIN": "1" if witness else "0"}
         if env:
             e.update(env)
